@@ -1,6 +1,7 @@
 (* C19 — I/O buffers behave as exact FIFO byte queues.
    Only theorem statements; proofs in Proofs/RingProofs.v, Proofs/BufferProofs.v, Proofs/BufferSeqProofs.v. *)
-From RcProxy Require Import Base.Bytes Model.Buffers Spec.FifoSpec Proofs.RingProofs Proofs.BufferProofs Proofs.BufferSeqProofs.
+From RcProxy Require Import Base.Bytes Model.Buffers Spec.FifoSpec Proofs.RingProofs Proofs.BufferProofs Proofs.BufferSeqProofs
+  Model.ConnOut Proofs.ConnOutProofs.
 From Coq Require Import Arith.
 Local Open Scope nat_scope.
 
@@ -60,6 +61,22 @@ Theorem C19_read_byte : forall rb c, rview rb c ->
   end.
 Proof. exact ring_read_byte_spec. Qed.
 Print Assumptions C19_read_byte.
+
+(* The users (conn.write, conn.writev, eventloop.write): for every sequence of writes, vectored
+   writes and writable events, and EVERY behaviour of the kernel (each write(2)/writev(2) accepts
+   any number of the bytes offered, 0 = EAGAIN): the bytes the kernel has accepted followed by the
+   backlog are exactly the bytes handed to the connection, in order.  Consequently a reply of any
+   size reaches a slow reader complete and uncorrupted once the backlog has drained. *)
+Theorem C19_conn_conservation : forall ops c total, coview c total -> small_size (length total + length (co_total ops)) ->
+  coview (fold_left co_step ops c) (total ++ co_total ops).
+Proof. exact conn_conservation. Qed.
+Print Assumptions C19_conn_conservation.
+
+Theorem C19_drained_means_delivered : forall ops maxb, small_size (length (co_total ops)) ->
+  eb_is_empty (co_buf (fold_left co_step ops (co_init maxb))) = true ->
+  co_sock (fold_left co_step ops (co_init maxb)) = co_total ops.
+Proof. exact drained_means_delivered. Qed.
+Print Assumptions C19_drained_means_delivered.
 
 (* non-vacuity: a ring of 8 bytes that wraps, fills exactly, grows, and is drained in pieces *)
 Example C19_witness :
